@@ -87,11 +87,11 @@ pub(crate) mod kani_verif {
             }
         };
     }
-    // @h name=c08_ots_private_n16_w8 props=C08,C09,C01 tier=thorough kind=proved cfg=w8 timeout=1800 funcs=lm_ots::keygen::generate_private_key contract="x_i = H(I||q||u16(i)||0xff||seed) for all i < p; every I/q/seed, every hash function; n=16, w=8 (p=18)"
+    // @h name=c08_ots_private_n16_w8 props=C08,C09,C01 tier=extended kind=proved cfg=w8 timeout=1800 funcs=lm_ots::keygen::generate_private_key contract="x_i = H(I||q||u16(i)||0xff||seed) for all i < p; every I/q/seed, every hash function; n=16, w=8 (p=18)"
     h!(c08_ots_private_n16_w8, check_private_key::<16>(8), 36);
     // @h name=c08_ots_private_n32_w8 props=C08,C09,C01 tier=extended kind=proved cfg=w8 timeout=3000 funcs=lm_ots::keygen::generate_private_key contract="same, n=32, w=8 (p=34)"
     h!(c08_ots_private_n32_w8, check_private_key::<32>(8), 40);
-    // @h name=c08_ots_public_n16_w8 props=C08,C07,C01 tier=thorough kind=proved cfg=w8 timeout=1800 funcs=lm_ots::keygen::generate_public_key contract="K = H(I||q||D_PBLC||y_0..y_{p-1}) with y_i = do_hash_chain(i, x_i, 0, 2^w-1) (callee by contract); n=16, w=8"
+    // @h name=c08_ots_public_n16_w8 props=C08,C07,C01 tier=extended kind=proved cfg=w8 timeout=1800 funcs=lm_ots::keygen::generate_public_key contract="K = H(I||q||D_PBLC||y_0..y_{p-1}) with y_i = do_hash_chain(i, x_i, 0, 2^w-1) (callee by contract); n=16, w=8"
     h!(c08_ots_public_n16_w8, check_public_key::<16, 320>(8), 48);
     // @h name=c08_ots_public_n16_w4 props=C08,C07,C01 tier=extended kind=proved cfg=default timeout=3000 funcs=lm_ots::keygen::generate_public_key contract="same, n=16, w=4 (p=35)"
     h!(c08_ots_public_n16_w4, check_public_key::<16, 600>(4), 80);
